@@ -239,14 +239,16 @@ def run(tier, seed, only=None):
     ctx = common.Ctx()
     timeout_ms = 60000 if tier == 'quick' else 600000
 
-    def go():
-        run_scenario(ctx, report, 'full-module/variant0', scen.full_module(0), False, timeout_ms)
-        run_scenario(ctx, report, 'gc/all-kinds', c06.gc_module_a(), True, timeout_ms)
-        if tier != 'quick':
-            run_scenario(ctx, report, 'full-module/variant1', scen.full_module(1), False, timeout_ms)
-            run_scenario(ctx, report, 'gc/mixed', c06.gc_module_c(), True, timeout_ms)
-    engine.run_in_big_stack(go)
-    report.bounds = {'descriptions': 'full module (every entity kind, imported and local) and the all-kinds GC description; all eight parse-time spaces incl. locals, all seven emit-time spaces'}
+    from obligations import gen
+    gl = gen.generated(tier, seed)
+    items = [('full-module/variant0', scen.full_module(0), False, timeout_ms), ('gc/all-kinds', c06.gc_module_a(), True, timeout_ms)]
+    if tier != 'quick':
+        items += [('full-module/variant1', scen.full_module(1), False, timeout_ms), ('gc/mixed', c06.gc_module_c(), True, timeout_ms)]
+    for name, sp in gl:
+        items += [(name, sp, False, timeout_ms), (name + '+gc', sp, True, timeout_ms)]
+    items = [i for i in items if not only or i[0] in only]
+    pc.run_parallel(ctx, report, run_scenario, items)
+    report.bounds = {'generated': gen.bounds_text(tier, len(gl)) + ' x {emit, gc+emit}', 'descriptions': 'full module (every entity kind, imported and local) and the all-kinds GC description; all eight parse-time spaces incl. locals, all seven emit-time spaces'}
     report.assumptions = ['extension code is modelled by two recorders: the on_parse callback and a probe custom section', 'entities are identified by fingerprints of symbolic attributes / tags / import names']
     report.samples = [o.as_json() for o in report.obligations[:3]]
     return report, ctx
